@@ -120,8 +120,12 @@ def r2(run, ctx):
     run.check('R2', bool(seeks) and cfg.dominates(seeks, t), 'the position is taken at the end of '
               'the file', f, t.ast)
     init = ctx.fn(F + '__init__')
-    run.check('R2', 'self._max_bytes = int(max_bytes)' in norm_text(init.node) and
-              'self._backup_count = int(backup_count)' in norm_text(init.node),
+    from rules.common import attr_stores, is_call_of
+    okint = True
+    for attr, param in (('_max_bytes', 'max_bytes'), ('_backup_count', 'backup_count')):
+        st = attr_stores(init.node, attr)
+        okint = okint and bool(st) and all(is_call_of(init.node, v, 'int', param) for _, v in st)
+    run.check('R2', okint,
               'max_bytes / backup_count are the configured integers', init, init.node)
 
 
@@ -251,7 +255,17 @@ def r4(run, ctx):
               'the log file is opened with mode %s: existing content is truncated on (re)open'
               % (norm_text(modes[0].args[1]) if modes and len(modes[0].args) > 1 else '?'))
     o2 = ctx.fn(B + 'open')
-    run.check('R4', 'if self._file.closed: self._file = self._open()' in norm_text(o2.node),
+    from rules.common import attr_stores
+    cfgo = ctx.cfg(o2)
+    reopen = [n for n in ctx.live_nodes(o2) if n.kind == 'stmt' and any(
+        st is n.ast and isinstance(v, ast.Call) and norm_text(v.func) == 'self._open'
+        for st, v in attr_stores(o2.node, '_file'))]
+
+    def closed(e):
+        return True if norm_text(e) == 'self._file.closed' else None
+    run.check('R4', bool(reopen) and all(guarded(cfgo, n, closed, True) for n in reopen) and
+              cfgo.exit.id not in reach_under(cfgo, cfgo.entry, closed, avoid=reopen,
+                                              labels_excluded=('exc', 'raise', 'reraise')),
               'open() reopens the same file when closed', o2, o2.node)
     c2 = ctx.fn(B + 'close')
     run.check('R4', 'self._file.close()' in norm_text(c2.node), 'close() closes the file', c2,
